@@ -98,16 +98,17 @@ class C16(Prop):
         ver = st.fixed_dictionaries({
             "fmt": st.just("verilog"), "design": gen_verilog.designs(),
             "write_blackbox": st.booleans(), "defparam": st.booleans(),
-            "deflist": st.lists(st.integers(0, 5), max_size=3)})
+            "deflist": st.lists(st.integers(0, 5), max_size=3), "drop_name": st.booleans()})
         ebl = st.fixed_dictionaries({
             "fmt": st.just("eblif"), "design": gen_eblif.designs(),
             "write_blackbox": st.booleans(), "cname": st.booleans(),
-            "drop_type": st.one_of(st.none(), st.integers(0, 5))})
+            "drop_type": st.one_of(st.none(), st.integers(0, 5)), "drop_name": st.booleans()})
         # cross-format: a hierarchical Verilog-read netlist written as EBLIF (the writer walks the
         # hierarchy and keeps per-run bookkeeping of what it has written)
         cross = st.fixed_dictionaries({
             "fmt": st.just("eblif"), "source": st.just("verilog"), "design": gen_verilog.designs(),
-            "write_blackbox": st.booleans(), "cname": st.booleans(), "drop_type": st.none()})
+            "write_blackbox": st.booleans(), "cname": st.booleans(), "drop_type": st.none(),
+            "drop_name": st.booleans()})
         return st.one_of(edif, edif, ver, ebl, cross)
 
     def run(self, case):
@@ -186,6 +187,10 @@ class C16(Prop):
             sdn.namespace_manager.default = "DEFAULT"
             res.label("input-rejected-by-reader")
             return res
+        if fmt != "edif" and case.get("drop_name") and nl.name is not None:
+            # only the EDIF writer is documented to default an absent netlist name
+            del nl.name
+            res.label("netlist-name-absent")
         res.nontrivial = any(op.wire is not None for L in nl.libraries for D in L.definitions
                              for I in D.children for op in I.pins.values())
         before = snapshot(nl)
